@@ -206,3 +206,20 @@ func (c *Cache[K, V]) VerifHoldShard(i int, hold bool) {
 		c.shards[i].mu.Unlock()
 	}
 }
+
+// VerifPausedRead is a lock-free reader stopped between getSieve's table lookup and its copy
+// of the item's fields: it holds the item the lookup returned.
+type VerifPausedRead[K comparable, V any] struct{ it *cacheItem[K, V] }
+
+// VerifLookup performs the first step of the lock-free read path (the table lookup, no lock,
+// no policy or stats effect) and returns the reader paused on its result.
+func (c *Cache[K, V]) VerifLookup(key K) (VerifPausedRead[K, V], bool) {
+	kh := c.hasher.Sum(key)
+	it, ok := c.shardByHash(kh).tab.lookup(kh, key)
+	return VerifPausedRead[K, V]{it}, ok
+}
+
+// Resume completes the paused read: the fields getSieve copies out of the item.
+func (p VerifPausedRead[K, V]) Resume() (key K, val V, expire int64) {
+	return p.it.key, p.it.value, p.it.expireTime
+}
